@@ -10,7 +10,8 @@ _COMMON_ASSUMPTIONS = [
 
 PROPS = {
     "C03": {
-        "families": [("ipm", {"quick": 2400, "thorough": 120000}, None)],
+        "families": [("ipm", {"quick": 2400, "thorough": 120000}, None),
+                     ("fsx", {"quick": 700, "thorough": 40000}, {"mode": "hist"})],
         "wall": {"quick": 150, "thorough": 1500},
         "rule": "one evaluation = one seeded plan (configurations + 5-40 requests on live anonymizers, restarts, forks, dumps) "
                 "executed against the real code, every answer compared with the cold twin; distinct = distinct schedule "
@@ -21,7 +22,8 @@ PROPS = {
             "white-box memo cross-invariant is checked only while the `cache` attribute exists"],
     },
     "C02": {
-        "families": [("ipm", {"quick": 2400, "thorough": 120000}, None)],
+        "families": [("ipm", {"quick": 2400, "thorough": 120000}, None),
+                     ("fsx", {"quick": 1500, "thorough": 80000}, {"mode": "undo"})],
         "wall": {"quick": 150, "thorough": 1500},
         "rule": "one evaluation = one seeded plan; every answered request is undone/redone by a cold twin in another simulated "
                 "process; non-trivial = the undo was answered on a cold memo for an address whose forward image came from another "
